@@ -10,6 +10,7 @@ A *signature set* (JSON-able):
   DEFAULT = {"k": "empty"} | {"k": "none"} | {"k": "str"|"int"|"bool"|"list", "v": ...}
 """
 import json
+import os
 import signal
 
 from . import coqterm as ct
@@ -615,7 +616,7 @@ def has_digit_hazard(tok):
 #       | "next" (flag value)      | "eq" (flag=value) | "glued" (-xvalue) | "pos" (value alone)
 # VALUE = {"b": bool} | {"n": count} | {"s": text} | {"t": True}
 PLAIN_VALUES = ["abc", "x1", "v", "hello", "a b", "1.5", "Z", "k=v", "a=b=c",
-                "my_app", " lead", "trail ", "{0}", "%s", "a\nb", "\u00e9t\u00e9", "{"]
+                "my_app", " lead", "trail ", "{0}", "%s", "a\nb", "\u00e9t\u00e9", "{", ""]
 INT_VALUES = ["5", "42", "0", "7"]
 
 
@@ -966,3 +967,91 @@ def gen_wild_invocation(rng, specs, max_calls=3):
             occs = cluster_pass(rng, c, occs, p=0.8)
         calls.append({"task": ci, "as": rng.choice([c["name"]] + c["aliases"]), "occs": occs})
     return calls
+
+
+# --------------------------------------------------------------------------
+# effects: the real Program.run, task bodies record what they see
+# --------------------------------------------------------------------------
+def build_recording_collection(sigs, rec):
+    """as build_collection, but every task body appends
+    (cli name, kwargs it received, the settings it sees) to [rec]"""
+    from invoke import Collection, task
+    root = Collection()
+    subs = {}
+    for t in sigs["tasks"]:
+        params = ["c"]
+        names = []
+        for pname, d in t["params"]:
+            src = default_src(d)
+            params.append(pname if src is None else "%s=%s" % (pname, src))
+            names.append(pname)
+        cli = t["name"].replace("_", "-")
+        if t.get("coll"):
+            cli = t["coll"].replace("_", "-") + "." + cli
+        code = ("def _body(%s):\n"
+                "    _rec.append([%r, [[n, _canon(v)] for n, v in [%s]], _cfg(c)])\n"
+                % (", ".join(params), cli, ", ".join("(%r, %s)" % (n, n) for n in names)))
+        ns = {"_rec": rec, "_canon": canon_val, "_cfg": seen_config}
+        exec(code, ns)
+        kwargs = dict(name=t["name"], aliases=tuple(t.get("aliases", ())),
+                      optional=tuple(t.get("optional", ())), iterable=tuple(t.get("iterable", ())),
+                      incrementable=tuple(t.get("incrementable", ())),
+                      auto_shortflags=t.get("auto_shortflags", True))
+        if t.get("positional") is not None:
+            kwargs["positional"] = tuple(t["positional"])
+        tk = task(**kwargs)(ns["_body"])
+        cname = t.get("coll")
+        if cname:
+            subs.setdefault(cname, Collection(cname)).add_task(tk, default=bool(t.get("default")))
+        else:
+            root.add_task(tk)
+    for sub in subs.values():
+        root.add_collection(sub)
+    return root
+
+
+def seen_config(c):
+    cfg = c.config
+    return {"echo": cfg.run.echo, "warn": cfg.run.warn, "hide": cfg.run.hide, "pty": cfg.run.pty,
+            "dry": cfg.run.dry, "dedupe": cfg.tasks.dedupe, "timeout": cfg.timeouts.command}
+
+
+def run_effects(sigs, argv):
+    """Program.run(argv) in task-runner mode (all core options available) on a
+    collection of recording tasks.  Returns what the bodies saw and how it ended."""
+    import contextlib
+    import io
+
+    def go():
+        from invoke import Program
+        rec = []
+        coll = build_recording_collection(sigs, rec)
+
+        class P(Program):
+            def load_collection(self):
+                self.collection = coll
+        p = P(version="9.9.9-verif")
+        out, err = io.StringIO(), io.StringIO()
+        exc = None
+        saved = os.environ.copy()
+        try:
+            with contextlib.redirect_stdout(out), contextlib.redirect_stderr(err):
+                try:
+                    p.run(["inv"] + list(argv), exit=True)
+                except SystemExit as e:
+                    exc = "SystemExit:%s" % (e.code,)
+                except _Timeout:
+                    raise
+                except BaseException as e:  # noqa
+                    exc = type(e).__name__
+        finally:
+            os.environ.clear()
+            os.environ.update(saved)
+        rem = None
+        try:
+            rem = p.core.remainder
+        except Exception:
+            pass
+        return {"calls": rec, "exc": exc, "version_printed": "9.9.9-verif" in out.getvalue(),
+                "remainder": rem}
+    return with_timeout(go, 20)
